@@ -416,6 +416,31 @@ def _exemptions(repo, fn):
                 return False
         return True
 
+    def search_loop_break(br):
+        """`for x in xs { if p(x) { found = true; break; } }`: `any` written as a loop -- the block holds nothing but the assignment
+        of a boolean literal to a local and the break (the loop computes a truth value; no element escapes a check)"""
+        par = pm.get(id(br))
+        st = A.stmt_of(br, pm)
+        blk = pm.get(id(st))[0] if st is not None and id(st) in pm else None
+        if blk is None or blk.get("k") != "Block" or len(blk["stmts"]) != 2 or blk["stmts"][1] is not st:
+            return False
+        first = blk["stmts"][0]
+        e = first.get("expr") if first.get("k") == "ExprStmt" else None
+        if e is None or e.get("k") != "Assign" or e["left"].get("k") != "Path" or e["right"].get("k") != "Lit" or e["right"].get("lit") != "bool":
+            return False
+        up = pm.get(id(blk))
+        return up is not None and up[0]["k"] == "If" and up[1] == "then"
+
+    ret_bool = "".join((fn.node.get("ret") or "").split()) == "bool"
+
+    def spelled_out_quantifier(ret):
+        """`for x in xs { if p(x) { return true } } false` (or the dual with false / true) in a function returning bool: `any` / `all`
+        written as a loop, the function's VALUE and not an exemption (nothing is skipped: the answer is known)"""
+        if not ret_bool:
+            return False
+        gs = A.guards_of(ret, pm)
+        return len(gs) >= 2 and gs[0][0]["k"] == "If" and gs[1][0]["k"] == "ForLoop"
+
     for n in A.walk(fn.body):
         k = n["k"]
         if k in ("Continue", "Break"):
@@ -431,11 +456,15 @@ def _exemptions(repo, fn):
             depth = 0
             if n.get("label"):
                 depth = next((i for i, l in enumerate(loops) if l.get("label") == n["label"]), -1)
+            if k == "Break" and depth == 0 and search_loop_break(n):
+                continue
             out.append((f"{k.lower()}^{depth}", guard_chain(n), n["l"]))
         elif k == "Return":
             e = n.get("expr")
             txt = "".join(repo.text(fn.file, e).split()) if e is not None else ""
             if (e is None or txt.startswith("Ok(")) and mode_only_return(n):
+                continue
+            if txt in ("true", "false") and spelled_out_quantifier(n):
                 continue
             if e is None or txt.startswith("Ok(") or txt in ("()", "true", "false", "None"):
                 out.append(("return-ok", guard_chain(n) + (" => " + txt[:40] if txt else ""), n["l"]))
